@@ -836,7 +836,13 @@ class Check:
             violations.append((self.write_replay("extra", c, {}, msg), ""))
         searched = 0
         if broken and not violations and not replay:
-            found = self.search()
+            try:
+                found = self.search()
+            except Exception as e:
+                # the search uses the implementation beyond the interface the property names (helper functions, operator protocol):
+                # a rewrite may have changed that.  No failing input was found; say why the search stopped
+                found = None
+                broken.append("the search for a failing input stopped: %r" % (e,))
             searched = found[2] if found else 0
             if found and found[0] is not None:
                 c, o, msg = found[0]
